@@ -8,7 +8,7 @@ use async_std::io::{prelude::SeekExt, Cursor, Read, Seek, SeekFrom, Write};
 use async_std::sync::{Arc, RwLock};
 use async_trait::async_trait;
 use futures::task::{Context, Poll};
-use futures::{Stream, StreamExt};
+use futures::Stream;
 use std::collections::hash_map::Entry;
 use std::collections::HashMap;
 use std::fmt;
@@ -37,15 +37,6 @@ impl AsyncMemoryFS {
         }
     }
 
-    async fn ensure_has_parent(&self, path: &str) -> VfsResult<()> {
-        let separator = path.rfind('/');
-        if let Some(index) = separator {
-            if self.exists(&path[..index]).await? {
-                return Ok(());
-            }
-        }
-        Err(VfsErrorKind::Other("Parent path does not exist".into()).into())
-    }
 }
 
 impl Default for AsyncMemoryFS {
@@ -204,8 +195,8 @@ impl AsyncFileSystem for AsyncMemoryFS {
     }
 
     async fn create_dir(&self, path: &str) -> VfsResult<()> {
-        self.ensure_has_parent(path).await?;
         let map = &mut self.handle.write().await.files;
+        ensure_has_parent(map, path)?;
         let entry = map.entry(path.to_string());
         match entry {
             Entry::Occupied(file) => {
@@ -238,10 +229,10 @@ impl AsyncFileSystem for AsyncMemoryFS {
     }
 
     async fn create_file(&self, path: &str) -> VfsResult<Box<dyn Write + Send + Unpin>> {
-        self.ensure_has_parent(path).await?;
         let content = Arc::new(Vec::<u8>::new());
         {
             let mut handle = self.handle.write().await;
+            ensure_has_parent(&handle.files, path)?;
             if let Some(existing) = handle.files.get(path) {
                 ensure_file(existing)?;
             }
@@ -301,14 +292,14 @@ impl AsyncFileSystem for AsyncMemoryFS {
     }
 
     async fn remove_dir(&self, path: &str) -> VfsResult<()> {
-        if self.read_dir(path).await?.next().await.is_some() {
+        let mut handle = self.handle.write().await;
+        let file = handle.files.get(path).ok_or(VfsErrorKind::FileNotFound)?;
+        ensure_dir(file)?;
+        let prefix = format!("{}/", path);
+        if handle.files.keys().any(|key| key.starts_with(&prefix)) {
             return Err(VfsErrorKind::Other("Directory to remove is not empty".into()).into());
         }
-        let mut handle = self.handle.write().await;
-        handle
-            .files
-            .remove(path)
-            .ok_or(VfsErrorKind::FileNotFound)?;
+        handle.files.remove(path);
         Ok(())
     }
 }
@@ -444,6 +435,17 @@ mod tests {
         assert_eq!(&dest.read_to_string().await?, "Hello World");
         Ok(())
     }
+}
+
+/// Checks that the parent of `path` exists; called with the lock held so that the check and the
+/// insertion that follows it are one atomic step
+fn ensure_has_parent(files: &HashMap<String, AsyncMemoryFile>, path: &str) -> VfsResult<()> {
+    if let Some(index) = path.rfind('/') {
+        if files.contains_key(&path[..index]) {
+            return Ok(());
+        }
+    }
+    Err(VfsErrorKind::Other("Parent path does not exist".into()).into())
 }
 
 fn ensure_dir(file: &AsyncMemoryFile) -> VfsResult<()> {
